@@ -148,6 +148,28 @@ def gen_case(rng, idx, quick):
             "configs": configs, "form": form, "family": "random", "marks": marks, "keyword": kw}
 
 
+TIE_REGEXES = [r"a+", r"[ab]+", r"[a-c]+", r"a|ab", r"ab?", r"(?:ab)+", r"\w+", r"[a-z]\w*", r"a[ab]*", r"[ab]b*",
+               r"aa?", r"a+b?", r"[a-z]+", r"ab|a"]
+
+
+def gen_tie_case(rng, idx, quick):
+    """3-5 regex/custom terminals of ONE priority, all expected in one state, with random
+    prefer marks: several tie on the longest match while others match shorter text (the
+    step 'longest match, THEN prefer' of the documented order)"""
+    n = rng.randint(3, 5)
+    names = rng.sample(NAMES, n)
+    regs = rng.sample(TIE_REGEXES, n)
+    terms = []
+    for nm, rg in zip(names, regs):
+        terms.append({"name": nm, "kind": "re", "body": rg, "prior": None,
+                      "prefer": rng.random() < 0.4, "mark": None})
+    text = gen_rules(rng, terms, "list") + "\nterminals\n" + "\n".join(term_decl(t) for t in terms) + "\n"
+    inputs = ["a", "ab", "aab", "abab", "abc", "aa", "abb", "b", "ab ab", "aab abc a", "ba"]
+    configs = [("LR", True, True), ("GLR", False, True), ("GLR", True, True)]
+    return {"name": "tie%d" % idx, "text": text, "ignore_case": False, "customs": {}, "inputs": inputs,
+            "configs": configs, "form": "list", "family": "regex-tie", "marks": False, "keyword": False}
+
+
 def corpus():
     """witnesses of the known findings, hypothesis probes and the suite's own examples"""
     cfg = [("LR", True, True), ("GLR", False, True)]
@@ -432,6 +454,8 @@ def gen_jobs(ctx):
     n = 260 if quick else 3200
     for i in range(n):
         jobs.append(gen_case(ctx.rng, i, quick))
+    for i in range(60 if quick else 600):
+        jobs.append(gen_tie_case(ctx.rng, i, quick))
     return jobs
 
 
@@ -471,7 +495,7 @@ def run(ctx):
             st["grammar_errors"] += 1
             if len(gerr_samples) < 3:
                 gerr_samples.append(r["gerr"])
-            if job["family"] != "random":
+            if job["family"] not in ("random", "regex-tie"):
                 ctx.violation("corpus grammar %s no longer builds: %s" % (job["name"], r["gerr"]),
                               {"grammar": job["text"]}, no_input=True, key="corpus-build")
             continue
